@@ -150,6 +150,7 @@ impl Prop for C08 {
         }
         st.eval();
         let pol = c.spec.policy;
+        prime(&c.site, &c.spec, c.date, None, prime_selector(&c.site, c.date));
         let got = compute(&c.site, &c.spec, c.date, None);
         // conventional reference
         let mut cs = c.spec.clone();
